@@ -142,6 +142,7 @@ impl Prop for C05 {
 				end: container::End::IntoInner,
 				owned_config: false,
 				via_write_all: false,
+				prelude: vec![],
 			};
 			return Scn { spec, rk_seed: rng.next_u64(), n_kinds: 1, only_kind: Some(if rng.bool() { RKind::Slice } else { RKind::Cursor }) };
 		}
@@ -434,6 +435,18 @@ pub fn shrink_spec(spec: &FileSpec) -> Vec<FileSpec> {
 				c.push(s);
 			}
 			_ => {}
+		}
+	}
+	if !spec.prelude.is_empty() {
+		let mut s = spec.clone();
+		s.prelude.clear();
+		c.push(s);
+		for i in 0..spec.prelude.len() {
+			if spec.prelude.len() > 1 {
+				let mut s = spec.clone();
+				s.prelude.remove(i);
+				c.push(s);
+			}
 		}
 	}
 	if !spec.user_meta.is_empty() {
